@@ -535,26 +535,82 @@ def _pos_increments(f):
     return res
 
 
+def _slice_len_operand(f, op, depth=0):
+    """for an operand that is `&x[..end]` (or `&x[0..end]`): the operand `end`; None when the slice has another shape"""
+    p = op_place(op)
+    if p is None or depth > 10:
+        return None
+    d = single_def(f, p["l"])
+    if d is None:
+        return None
+    b, i, st = d
+    if i == "T":
+        cn = callee_name(st) or ""
+        if cn.endswith(("Index::index", "IndexMut::index_mut")) and len(st["args"]) == 2:
+            rp = op_place(st["args"][1])
+            rd = single_def(f, rp["l"]) if rp is not None else None
+            if rd is not None and rd[1] != "T" and rd[2]["rv"]["k"] == "agg":
+                adt = str(rd[2]["rv"].get("adt") or "")
+                ops = rd[2]["rv"]["ops"]
+                if adt.endswith("RangeTo") and len(ops) == 1:
+                    return ops[0]
+                if adt.endswith("::Range") and len(ops) == 2 and (ops[0].get("const") or {}).get("scalar") in ("0", 0, "0x0"):
+                    return ops[1]
+            return None
+        if cn.endswith(("Deref::deref", "DerefMut::deref_mut", "AsRef::as_ref", "Borrow::borrow")) and st["args"]:
+            return _slice_len_operand(f, st["args"][0], depth + 1)
+        return None
+    rv = st["rv"]
+    if rv["k"] == "use":
+        return _slice_len_operand(f, rv["a"], depth + 1)
+    if rv["k"] in ("ref", "rawptr"):
+        return _slice_len_operand(f, {"copy": {"l": rv["p"]["l"]}}, depth + 1)
+    if rv["k"] == "cast":
+        return _slice_len_operand(f, rv["a"], depth + 1)
+    return None
+
+
 def amount_rule(ck, prog, ra_methods):
     n = 0
     for f in ra_methods:
         g = flow(f)
-        copies = [(b, t) for b, t in f.calls() if (callee_name(t) or "").endswith(("ptr::copy_nonoverlapping", "intrinsics::copy_nonoverlapping"))]
+        # (block, terminator, source operand, destination operand, count operand or None): raw copies and slice copies alike
+        copies = [(b, t, t["args"][0], t["args"][1], t["args"][2]) for b, t in f.calls()
+                  if (callee_name(t) or "").endswith(("ptr::copy_nonoverlapping", "intrinsics::copy_nonoverlapping")) and len(t["args"]) == 3]
+        copies += [(b, t, t["args"][1], t["args"][0], _slice_len_operand(f, t["args"][1])) for b, t in f.calls()
+                   if (callee_name(t) or "").endswith(("slice::copy_from_slice", "slice::clone_from_slice")) and len(t["args"]) == 2]
+        copies.sort(key=lambda c: c[0])
         if not copies:
             continue
         incs = _pos_increments(f)
         cons = [(b, t["args"][1]) for b, t in f.calls() if (callee_name(t) or "").endswith("BufRead::consume") and len(t["args"]) > 1]
         acc = [(x, T) for x, blk in enumerate(f.blocks) if blk["t"]["k"] == "return"]
         ordinal = 0
-        for b, t in copies:
-            w = g.walk(ops=[t["args"][0]], at=(b, T), through=lambda tt: not (callee_name(tt) or "").endswith(LOCAL_VIEWS + READER_VIEWS))
+        stop = lambda tt: not (callee_name(tt) or "").endswith(LOCAL_VIEWS + READER_VIEWS)
+        for b, t, src, dst, cnt in copies:
+            w = g.walk(ops=[src], at=(b, T), through=stop)
             from_reader = _is_reader_view(g, w)
             from_local = _is_local_view(g, w) and not from_reader
             if from_local == from_reader:
-                continue  # compaction inside the spill buffer etc.: not a copy out to the caller
+                # neither view: either a move inside the spill buffer (compaction: the destination is the buffer itself), or a copy OUT
+                # of the raw storage `self.buf` that ignores the read position — the bytes before `pos` were already handed out
+                sf = {fl for a, fl in g.fields_in(w) if a == RA}
+                wd = g.walk(ops=[dst], at=(b, T), through=stop)
+                df = {fl for a, fl in g.fields_in(wd) if a == RA}
+                if "buf" in sf and "pos" not in sf and not df and not from_reader:
+                    ordinal += 1
+                    n += 1
+                    ck.ob("AMT", f"{f.nname.split('::')[-1]}:copy#{ordinal}:unread-view", False,
+                          f"{f.nname.split('::')[-1]}: bytes handed to the caller are copied from the unread part of the local buffer "
+                          "(buffer() / buf[pos..]), not from the start of its storage", loc=f.loc(b, T),
+                          detail="the source of this copy is `self.buf` without the read position: bytes that were already consumed are returned again")
+                continue
             ordinal += 1
             n += 1
-            want = _value_root(f, t["args"][2])
+            if cnt is None:
+                ck.note(f"AMT: {f.nname.split('::')[-1]}: copy #{ordinal} has a source slice of an unrecognised shape; its amount is not decided")
+                continue
+            want = _value_root(f, cnt)
             if from_local:
                 match = [(bb, ii) for bb, ii, amt in incs if _value_root(f, amt) == want]
                 kind = "pos += count"
